@@ -266,7 +266,13 @@ func main() {
 		var mon *cf.Monitor
 		switch {
 		case run.Hang:
-			mon = &cf.Monitor{Signature: "sticky:does-not-terminate", What: fmt.Sprintf("stickyBalanceStrategy.Plan did not return within %v (performReassignments keeps repeating a pass that changes nothing)", bg.HangTimeout)}
+			// the known family keeps redirecting moves through getTheActualPartitionToBeMoved; any other way of not
+			// returning gets its own signature
+			sig := "sticky:does-not-terminate"
+			if run.NPicks < 50 {
+				sig = "sticky:does-not-terminate:without-reverse-pair-redirection"
+			}
+			mon = &cf.Monitor{Signature: sig, What: fmt.Sprintf("stickyBalanceStrategy.Plan did not return within %v (%d reverse-pair redirections so far; performReassignments keeps repeating a pass that changes nothing)", bg.HangTimeout, run.NPicks)}
 		case run.Panic != "":
 			mon = &cf.Monitor{Signature: "sticky:panic", What: "stickyBalanceStrategy.Plan panicked: " + run.Panic}
 		case !run.Err:
